@@ -106,8 +106,8 @@ fn canon_str(css: &str, prefix: Option<&str>, rewrite: bool) -> Vec<String> {
 }
 const SEL: &[&str] = &[".a", ".md\\:x", " ", ".b", ">", ",", ":not(", ":is(", ")", ":hover", "/*c*/", "#i", "[x=y]", "::slotted(", ":nth-child(2n + 1 of "];
 const VAL: &[&str] = &["calc(", "min(", "CALC(", "Clamp(", "1px", " + ", " - ", "2rpx", "(", ")", "*3", "var(--x,", " ", ",", "/*c*/", "red"];
-const WRAP: &[(&str, &str)] = &[("", ""), ("@media (min-width:1rpx){", "}"), ("@layer x{", "}"), ("@supports selector(.c .d){", "}"), ("@container n (min-width: calc(1px + 2rpx)){", "}")];
-const BOUND: &str = "selectors of <= 4 pieces from 14 selector pieces (classes, combinators, :not/:is/::slotted/:nth-child(.. of ..), comments) under 5 wrappers (none, @media, @layer, @supports selector(), @container with calc), and declaration values of <= 4 pieces from 16 value pieces (calc, min, CALC, Clamp, nested parentheses, var, rpx, comments); only inputs the transformer accepts without a warning; class prefixes `p` and the empty prefix";
+const WRAP: &[(&str, &str)] = &[("", ""), ("@media (min-width:1rpx){", "}"), ("@MEDIA (min-width:1px){", "}"), ("@layer x{", "}"), ("@supports selector(.c .d){", "}"), ("@container n (min-width: calc(1px + 2rpx)){", "}")];
+const BOUND: &str = "selectors of <= 4 pieces from 14 selector pieces (classes, combinators, :not/:is/::slotted/:nth-child(.. of ..), comments) under 6 wrappers (none, @media, @MEDIA, @layer, @supports selector(), @container with calc), and declaration values of <= 4 pieces from 16 value pieces (calc, min, CALC, Clamp, nested parentheses, var, rpx, comments); only inputs the transformer accepts without a warning; class prefixes `p` and the empty prefix";
 
 fn well_nested(css: &str) -> bool {
     let mut st = vec![];
